@@ -838,7 +838,7 @@ def check_c19(tier, seed):
 def check_c20(tier, seed):
     oracles = ["not_linearizable", "deadlock", "not_a_set", "observe_failed", "open_failed"]
     acc = ConcAcc("C20", tier, seed, oracles, "exploration")
-    n = 2400 if tier == "quick" else 120000
+    n = 1800 if tier == "quick" else 120000
     conc_batch(acc, [("c20", n)], seed, crash_share_num=0)
     acc.conc_extra()
     rule = ("1-2 writers issuing multi-tuple inserts (2-3 fresh tuples each), deletes, register/drop of a copy rule, and 1-2 readers reading the whole relation through the "
